@@ -40,6 +40,7 @@ type EncryptColumn[T any] struct {
 
 var errInvalid = errors.New("ekit EncryptColumn无效")
 var errKeyLengthInvalid = errors.New("ekit EncryptColumn仅支持 16/24/32 byte 的key")
+var errCiphertextTooShort = errors.New("ekit EncryptColumn密文长度不足")
 
 // Value 返回加密后的值
 // 如果 T 是基本类型，那么会对 T 进行直接加密
@@ -157,6 +158,9 @@ func (e *EncryptColumn[T]) aesDecrypt(data []byte) ([]byte, error) {
 	gcm, err := cipher.NewGCM(newCipher)
 	if err != nil {
 		return nil, err
+	}
+	if len(data) < gcm.NonceSize() {
+		return nil, errCiphertextTooShort
 	}
 	nonce, cipherData := data[:gcm.NonceSize()], data[gcm.NonceSize():]
 	return gcm.Open(nil, nonce, cipherData, nil)
